@@ -143,12 +143,13 @@ type GFunc struct {
 }
 
 type GEM struct {
-	c      *Ctx
-	pkg    *packages.Package
-	info   *types.Info
-	funcs  map[*types.Func]*GFunc
-	byName map[string]*GFunc
-	order  []*GFunc
+	c         *Ctx
+	pkg       *packages.Package
+	info      *types.Info
+	funcs     map[*types.Func]*GFunc
+	wrapKinds map[*types.Func]string // methods that forward their parameters to an emitter of the range writer
+	byName    map[string]*GFunc
+	order     []*GFunc
 
 	rwType   *types.Named // generator.RangeWriter
 	exprType *types.Named // parser.Expression
@@ -255,7 +256,7 @@ func (g *GEM) emitterKind(call *ast.CallExpr) string {
 		t = pt.Elem()
 	}
 	if t != types.Type(g.rwType) {
-		return ""
+		return g.emitterWrapperKind(fn)
 	}
 	switch fn.Name() {
 	case "Write":
@@ -268,6 +269,96 @@ func (g *GEM) emitterKind(call *ast.CallExpr) string {
 		return "raw"
 	}
 	return ""
+}
+
+// emitterWrapperKind: a method of another unexported type of the generator package (a sticky error writer around the
+// range writer) that does nothing but forward its own parameters, in order, to one emitter of the range writer —
+// after at most a leading `if r.err != nil { return … }`. A call of it emits what the emitter would.
+func (g *GEM) emitterWrapperKind(fn *types.Func) string {
+	if g.wrapKinds == nil {
+		g.wrapKinds = map[*types.Func]string{}
+		for _, fd := range allFuncDecls(g.pkg) {
+			if fd.Recv == nil || fd.Body == nil || len(fd.Recv.List) != 1 {
+				continue
+			}
+			obj, _ := g.info.Defs[fd.Name].(*types.Func)
+			if obj == nil || obj.Exported() {
+				continue
+			}
+			body := fd.Body.List
+			if len(body) > 0 {
+				if is, ok := body[0].(*ast.IfStmt); ok && is.Init == nil && is.Else == nil && len(is.Body.List) == 1 {
+					if _, isRet := is.Body.List[0].(*ast.ReturnStmt); isRet {
+						if be, ok := ast.Unparen(is.Cond).(*ast.BinaryExpr); ok && be.Op == token.NEQ && types.ExprString(be.Y) == "nil" {
+							body = body[1:]
+						}
+					}
+				}
+			}
+			// one emitter call in what is left (an assignment or expression statement), optionally followed by a return of locals
+			var call *ast.CallExpr
+			ncalls := 0
+			for _, st := range body {
+				ast.Inspect(st, func(n ast.Node) bool {
+					if c2, ok := n.(*ast.CallExpr); ok {
+						ncalls++
+						call = c2
+					}
+					return true
+				})
+			}
+			if ncalls != 1 || call == nil || len(body) > 2 {
+				continue
+			}
+			cf := calleeOf(g.info, call)
+			if cf == nil {
+				continue
+			}
+			csig := cf.Type().(*types.Signature)
+			if csig.Recv() == nil {
+				continue
+			}
+			rt := csig.Recv().Type()
+			if pt, ok := rt.(*types.Pointer); ok {
+				rt = pt.Elem()
+			}
+			if rt != types.Type(g.rwType) {
+				continue
+			}
+			kind := ""
+			switch cf.Name() {
+			case "Write":
+				kind = "go"
+			case "WriteIndent":
+				kind = "indent"
+			case "WriteStringLiteral":
+				kind = "lit"
+			}
+			if kind == "" {
+				continue
+			}
+			// the arguments are the method's own parameters, in order
+			var prms []types.Object
+			for _, prm := range fd.Type.Params.List {
+				for _, nm := range prm.Names {
+					prms = append(prms, g.info.Defs[nm])
+				}
+			}
+			if len(prms) != len(call.Args) {
+				continue
+			}
+			same := true
+			for i, a := range call.Args {
+				if id, ok := ast.Unparen(a).(*ast.Ident); !ok || g.info.ObjectOf(id) != prms[i] {
+					same = false
+				}
+			}
+			if same {
+				g.wrapKinds[obj] = kind
+			}
+		}
+	}
+	return g.wrapKinds[fn]
 }
 
 // ---------------------------------------------------------------- evaluation
@@ -925,6 +1016,13 @@ func (ev *gemEval) bind(obj types.Object, rhs ast.Expr, e *env) {
 	if isStringType(obj.Type()) {
 		e.vals[obj] = ev.fold(rhs, e)
 		delete(e.genvars, obj)
+	}
+	// a table of code lines kept in a local before it is ranged over
+	if isLineTableType(obj.Type(), ev.g.pkg.Types, 0) {
+		delete(e.tabs, obj)
+		if tb := ev.constTable(rhs, e); tb != nil {
+			e.tabs[obj] = tb
+		}
 	}
 	if _, isFn := obj.Type().Underlying().(*types.Signature); isFn {
 		delete(e.flits, obj)
@@ -1625,7 +1723,7 @@ func (ev *gemEval) call(call *ast.CallExpr, e *env, onEmit func(*Emit)) []Node {
 	// a call through a function-typed local (or of what a selector function returned): one alternative per function it may hold
 	if calleeOf(info, call) == nil {
 		if f, ok := ast.Unparen(call.Fun).(*ast.Ident); ok {
-			if lv, ok := e.flits[info.ObjectOf(f)]; ok && touchesSourceMap(info, lv.lit.Body) && ev.depth < 4 {
+			if lv, ok := e.flits[info.ObjectOf(f)]; ok && (touchesSourceMap(info, lv.lit.Body) || ev.litEmits(lv.lit)) && ev.depth < 4 {
 				e3 := lv.env.clone()
 				if ev.bindBookkeeping(lv.lit.Type, call, e, e3) {
 					sub := &gemEval{g: ev.g, gf: ev.gf, depth: ev.depth + 1}
@@ -1902,6 +2000,25 @@ func (ev *gemEval) call(call *ast.CallExpr, e *env, onEmit func(*Emit)) []Node {
 	return nil
 }
 
+// litEmits: the body of a local closure calls an emitter of the range writer or an emitting function of the generator:
+// a call of the closure is then evaluated in place (like a bookkeeping helper), its text parameters bound to what the
+// caller passes.
+func (ev *gemEval) litEmits(lit *ast.FuncLit) bool {
+	info := ev.info()
+	found := false
+	ast.Inspect(lit.Body, func(m ast.Node) bool {
+		if call, ok := m.(*ast.CallExpr); ok {
+			if ev.g.emitterKind(call) != "" {
+				found = true
+			} else if fn := calleeOf(info, call); fn != nil && ev.g.funcs[fn] != nil {
+				found = true
+			}
+		}
+		return !found
+	})
+	return found
+}
+
 // touchesSourceMap: n (function literals included) registers something with the source map.
 func touchesSourceMap(info *types.Info, n ast.Node) bool {
 	found := false
@@ -1931,6 +2048,10 @@ func (ev *gemEval) bindBookkeeping(ft *ast.FuncType, call *ast.CallExpr, e, e2 *
 				return false
 			}
 			obj := info.Defs[nm]
+			if obj != nil && isStringType(obj.Type()) {
+				// a piece of code text handed in (the keyword of a branch): known by what the caller passes
+				e2.vals[obj] = ev.fold(call.Args[i], e)
+			}
 			switch a := ast.Unparen(call.Args[i]).(type) {
 			case *ast.SelectorExpr:
 				if xid, ok := ast.Unparen(a.X).(*ast.Ident); ok && (a.Sel.Name == "From" || a.Sel.Name == "To") {
@@ -3091,12 +3212,16 @@ func isLineTableType(t types.Type, pkg *types.Package, depth int) bool {
 	if depth == 0 && isLineTableType(el, pkg, 1) {
 		return true
 	}
-	nt, ok := el.(*types.Named)
-	if !ok || nt.Obj().Pkg() != pkg {
-		return false
+	var st *types.Struct
+	if nt, ok := el.(*types.Named); ok {
+		if nt.Obj().Pkg() != pkg {
+			return false
+		}
+		st, _ = nt.Underlying().(*types.Struct)
+	} else {
+		st, _ = el.(*types.Struct) // a row type written in place: []struct{ indent int; text string }{…}
 	}
-	st, ok := nt.Underlying().(*types.Struct)
-	if !ok {
+	if st == nil {
 		return false
 	}
 	text := false
@@ -3264,6 +3389,8 @@ func (ev *gemEval) tableRows(cl *ast.CompositeLit, e *env) []tableRow {
 						row.parts = map[string][]Part{}
 					}
 					row.parts[name] = ev.fold(val, e)
+				} else if b, isBasic := t.Underlying().(*types.Basic); t != nil && isBasic && b.Info()&types.IsString == 0 {
+					// a number or flag that is not a constant (the indent level of the line): no code text depends on it
 				} else {
 					return nil
 				}
